@@ -376,3 +376,108 @@ fn c10_rpc_short_silent_tcp27() {
 fn c10_rpc_short_silent_udp39() {
     rpc_short_silent(true, 39)
 }
+
+/// XDR string encoding used for the universal address / netid / owner strings: 4-byte
+/// big-endian length, the bytes, zero padding up to the next multiple of 4 (and none when
+/// the length already is one)
+fn xdr_string(len: usize) {
+    let content: [u8; 8] = kani::any();
+    let mut i = 0;
+    while i < 8 {
+        kani::assume(content[i] >= 0x20 && content[i] < 0x7f);
+        i += 1;
+    }
+    let s = String::from_utf8(content[..len].to_vec()).unwrap();
+    let mut buf: Vec<u8> = Vec::with_capacity(32);
+    buf.push(0xAA);
+    push_string_pad(&mut buf, s);
+    let padded = (len + 3) / 4 * 4;
+    assert!(buf.len() == 1 + 4 + padded, "C16: XDR string is not length word + bytes padded to a multiple of 4");
+    assert!(be32(&buf[1..5]) as usize == len, "C16: XDR string length word");
+    let j: usize = kani::any();
+    kani::assume(j < padded);
+    if j < len {
+        assert!(buf[5 + j] == content[j], "C16: XDR string bytes altered");
+    } else {
+        assert!(buf[5 + j] == 0, "C16: XDR padding is not zero");
+    }
+    kani::cover!(true, "string encoded");
+}
+
+//# harness: c16_rpc_xdr_string_4
+//# props: C16
+//# tier: quick
+//# encodes: proto::rpc::push_string_pad, push_u32
+//# bounds: string of exactly 4 printable bytes (content symbolic), appended to a non-empty buffer
+//# out: strings longer than 8 bytes (the padding rule depends on the length modulo 4 only; residues 0,1,3 and lengths 0,4,8 are covered across the instances)
+//# cover: string encoded
+#[kani::proof]
+#[kani::unwind(12)]
+fn c16_rpc_xdr_string_4() {
+    xdr_string(4)
+}
+
+//# harness: c16_rpc_xdr_string_5
+//# props: C16
+//# tier: quick
+//# encodes: proto::rpc::push_string_pad, push_u32
+//# bounds: string of exactly 5 printable bytes (content symbolic), appended to a non-empty buffer
+//# out: strings longer than 8 bytes (the padding rule depends on the length modulo 4 only; residues 0,1,3 and lengths 0,4,8 are covered across the instances)
+//# cover: string encoded
+#[kani::proof]
+#[kani::unwind(12)]
+fn c16_rpc_xdr_string_5() {
+    xdr_string(5)
+}
+
+//# harness: c16_rpc_xdr_string_0
+//# props: C16
+//# tier: thorough
+//# encodes: proto::rpc::push_string_pad, push_u32
+//# bounds: string of exactly 0 printable bytes (content symbolic), appended to a non-empty buffer
+//# out: strings longer than 8 bytes (the padding rule depends on the length modulo 4 only; residues 0,1,3 and lengths 0,4,8 are covered across the instances)
+//# cover: string encoded
+#[kani::proof]
+#[kani::unwind(12)]
+fn c16_rpc_xdr_string_0() {
+    xdr_string(0)
+}
+
+//# harness: c16_rpc_xdr_string_3
+//# props: C16
+//# tier: thorough
+//# encodes: proto::rpc::push_string_pad, push_u32
+//# bounds: string of exactly 3 printable bytes (content symbolic), appended to a non-empty buffer
+//# out: strings longer than 8 bytes (the padding rule depends on the length modulo 4 only; residues 0,1,3 and lengths 0,4,8 are covered across the instances)
+//# cover: string encoded
+#[kani::proof]
+#[kani::unwind(12)]
+fn c16_rpc_xdr_string_3() {
+    xdr_string(3)
+}
+
+//# harness: c16_rpc_xdr_string_8
+//# props: C16
+//# tier: thorough
+//# encodes: proto::rpc::push_string_pad, push_u32
+//# bounds: string of exactly 8 printable bytes (content symbolic), appended to a non-empty buffer
+//# out: strings longer than 8 bytes (the padding rule depends on the length modulo 4 only; residues 0,1,3 and lengths 0,4,8 are covered across the instances)
+//# cover: string encoded
+#[kani::proof]
+#[kani::unwind(12)]
+fn c16_rpc_xdr_string_8() {
+    xdr_string(8)
+}
+
+//# harness: c16_rpc_xdr_string_7
+//# props: C16
+//# tier: thorough
+//# encodes: proto::rpc::push_string_pad, push_u32
+//# bounds: string of exactly 7 printable bytes (content symbolic), appended to a non-empty buffer
+//# out: strings longer than 8 bytes (the padding rule depends on the length modulo 4 only; residues 0,1,3 and lengths 0,4,8 are covered across the instances)
+//# cover: string encoded
+#[kani::proof]
+#[kani::unwind(12)]
+fn c16_rpc_xdr_string_7() {
+    xdr_string(7)
+}
